@@ -106,6 +106,51 @@ func (pc *pCtx) pnInstrumentedPipes(only string) {
 				plain, _ = lic.Call.Args[2].(*ssa.Call)
 				instr, _ = lic.Call.Args[3].(*ssa.Call)
 			}
+			// the pipeline is the error observable exactly when the description of the call site could not be read:
+			// the guard in front of `return ro.Throw(err), nil` is `err != nil`
+			guardOK, guardNote := false, "no guard on the error of GetFunctionDescription found"
+			for _, b := range fn.Blocks {
+				if len(b.Instrs) == 0 {
+					continue
+				}
+				iff, ok := b.Instrs[len(b.Instrs)-1].(*ssa.If)
+				if !ok {
+					continue
+				}
+				bo, ok := iff.Cond.(*ssa.BinOp)
+				if !ok {
+					continue
+				}
+				var other ssa.Value
+				if ex, ok := bo.X.(*ssa.Extract); ok && ex.Index == 1 {
+					other = bo.Y
+				} else if ex, ok := bo.Y.(*ssa.Extract); ok && ex.Index == 1 {
+					other = bo.X
+				} else {
+					continue
+				}
+				if c, ok := other.(*ssa.Const); !ok || !c.IsNil() {
+					continue
+				}
+				throws := func(blk *ssa.BasicBlock) bool {
+					for _, ins := range blk.Instrs {
+						if c, ok := ins.(*ssa.Call); ok && strings.HasPrefix(staticCalleeName(c.Common()), "Throw") {
+							return true
+						}
+					}
+					return false
+				}
+				onErr, onOK := b.Succs[0], b.Succs[1]
+				if bo.Op == token.EQL {
+					onErr, onOK = onOK, onErr
+				}
+				if throws(onErr) && !throws(onOK) {
+					guardOK, guardNote = true, ""
+				} else {
+					guardOK, guardNote = false, "the branch taken when the description was read returns the error observable (or the other one does not)"
+				}
+			}
+			pc.add(props, "PN/"+name+"/fails-exactly-when-the-description-cannot-be-read", "the instrumented pipe is ro.Throw(err) exactly when GetFunctionDescription failed", guardOK, guardNote, pc.pos(fn.Pos()))
 			pos := pc.pos(fn.Pos())
 			okShape := lic != nil && plain != nil && instr != nil && len(observers) == len(ops) && len(lic.Call.Args) == 4
 			pc.add(props, "PN/"+name+"/one-observer-per-operator", "the function builds a plain and an instrumented composition with exactly one processing-time observer per operator", okShape,
@@ -245,6 +290,23 @@ func (pc *pCtx) p9BlockingWaits(s *pSite) {
 // that releases one thing *or* another leaves the other one subscribed.
 func (pc *pCtx) p2cUnconditionalRelease(s *pSite) {
 	props := []string{"C03", "C14"}
+	// for an operator over several sources this is also C05: the end of the output releases the other sources
+	nsubs := 0
+	for _, fn := range s.Closures {
+		for _, b := range fn.Blocks {
+			for _, ins := range b.Instrs {
+				if call, ok := ins.(*ssa.Call); ok && call.Common().IsInvoke() && strings.HasPrefix(call.Common().Method.Name(), "Subscribe") && hasMethod(call.Common().Value.Type(), "SubscribeWithContext") {
+					nsubs++
+					if fn != s.Subscribe || inLoop(call) {
+						nsubs++
+					}
+				}
+			}
+		}
+	}
+	if nsubs >= 2 {
+		props = append(props, "C05")
+	}
 	for ti, td := range s.Teardowns {
 		if td.Blocks == nil {
 			continue
@@ -325,7 +387,10 @@ func onEveryPath(fn *ssa.Function, b *ssa.BasicBlock, call *ssa.Call) bool {
 // delivered downstream runs the teardown on the same goroutine (self-deadlock), and a concurrent terminal from another
 // source closes the cycle between the operator's lock and the subscriber's lock.
 func (pc *pCtx) p10LockOrder(s *pSite) {
-	props := []string{"C07", "C05", "C06"} // C06: Unsubscribe may be called from inside a callback - the teardown then runs under every lock the delivery holds
+	// C06: Unsubscribe may be called from inside a callback - the teardown then runs under every lock the delivery holds;
+	// C03 / C14: a downstream that ends during that delivery runs the teardown there, and a teardown that blocks on the lock
+	// releases nothing
+	props := []string{"C07", "C05", "C06", "C03", "C14"}
 	// locks the teardown functions acquire (directly)
 	tdLocks := map[ssa.Value]bool{}
 	for _, fn := range s.Closures {
